@@ -520,7 +520,7 @@ func c12GenScenario(r *rng, all []corpusFile, concurrent bool, lex int) *C12Scen
 		// Bias to the order-sensitive corpus and to rejected inputs.
 		for tries := 0; tries < 8; tries++ {
 			cf := all[r.intn(len(all))]
-			if strings.HasPrefix(cf.Name, "verif:order/") || strings.Contains(cf.Name, "reject/") || tries >= 3 {
+			if concurrent || strings.HasPrefix(cf.Name, "verif:order/") || strings.Contains(cf.Name, "reject/") || tries >= 3 {
 				return cf
 			}
 		}
@@ -532,7 +532,7 @@ func c12GenScenario(r *rng, all []corpusFile, concurrent bool, lex int) *C12Scen
 	}
 	for i := 0; i < nt; i++ {
 		cf := pickTarget()
-		if concurrent && i > 0 && r.chance(1, 4) {
+		if concurrent && i > 0 && r.chance(1, 3) {
 			cf.Name = sc.Tasks[0].Target // the same text on two goroutines
 			cf.Text, _ = corpusText(cf.Name)
 		}
@@ -676,7 +676,7 @@ func c12Search() {
 			sum.Failures++
 			trimTape(sc.Tape, s)
 			emit(outRec{T: "fail", Property: "C12", Seed: runSeed, Class: o.class, Sig: o.sig, Detail: o.detail, Replay: sc,
-				Extra: map[string]interface{}{"trace": traceStrings(o.trace, 40)}})
+				Extra: map[string]interface{}{"trace": traceStrings(o.trace, 40), "history": historyInfo(idx)}})
 			if o.class == "race" || o.class == "harness-race" {
 				sum.Stopped = true
 				sum.NextSeed = uint64(idx + shardN)
